@@ -1,0 +1,49 @@
+//go:build verif
+
+package watcher
+
+import (
+	"reflect"
+	"sort"
+)
+
+// VerifHook, when set, is called at named points of Changes.Fetch and
+// Changes.FileChanged (build tag verif only):
+//
+//	fetch:before-wait  holding the mutex, about to call cond.Wait
+//	fetch:after-wait   holding the mutex, cond.Wait has returned
+//	fetch:took         holding the mutex, dir has been removed from the pending set
+//	report:inserted    holding the mutex, dir has been added to the pending set
+//	report:unlocked    between the unlock and the (conditional) Broadcast
+//
+// Hooks called with the mutex held must not block. It must be set before any
+// Changes is used and not changed afterwards.
+var VerifHook func(c *Changes, point string, dir string)
+
+func verifHook(p *Changes, point string, dir string) {
+	if h := VerifHook; h != nil {
+		h(p, point, dir)
+	}
+}
+
+// VerifState returns, atomically with respect to Fetch and FileChanged, the
+// pending directories (sorted) and the number of goroutines that are registered
+// in cond.Wait and have not been notified yet (-1 if the layout of sync.Cond is
+// not the expected one).
+func (p *Changes) VerifState() (pending []string, unnotified int) {
+	p.mutex.Lock()
+	defer p.mutex.Unlock()
+	for dir := range p.changed {
+		pending = append(pending, dir)
+	}
+	sort.Strings(pending)
+	unnotified = -1
+	nl := reflect.ValueOf(&p.cond).Elem().FieldByName("notify")
+	if nl.IsValid() && nl.Kind() == reflect.Struct {
+		w, n := nl.FieldByName("wait"), nl.FieldByName("notify")
+		if w.IsValid() && n.IsValid() && w.Kind() == reflect.Uint32 && n.Kind() == reflect.Uint32 {
+			unnotified = int(uint32(w.Uint()) - uint32(n.Uint()))
+		}
+	}
+	return
+}
